@@ -329,3 +329,42 @@ func (l Layout) WalkVersion(bucket map[string][]byte, name string) (*WTree, erro
 	}
 	return Walk(bucket, l.Node, r), nil
 }
+
+// DumpVersion renders the node structure of one version for violation reports:
+// every node as name[:6]{child key child key ... child}.
+func (l Layout) DumpVersion(bucket map[string][]byte, name string) string {
+	r, err := l.LoadVersion(bucket, name)
+	if err != nil || r.Link == nil || *r.Link == "" {
+		return fmt.Sprintf("<%v>", err)
+	}
+	var rec func(name string, depth int) string
+	rec = func(name string, depth int) string {
+		b, ok := bucket[l.Node+name]
+		if !ok {
+			return "MISSING"
+		}
+		var n v1proto.Node
+		if depth > 16 || proto.Unmarshal(b, &n) != nil {
+			return "?"
+		}
+		var sb strings.Builder
+		short := name
+		if len(short) > 6 {
+			short = short[:6]
+		}
+		sb.WriteString(short + "{")
+		for i := 0; i <= len(n.Key); i++ {
+			if i < len(n.Link) && n.Link[i] != "" {
+				sb.WriteString(" " + rec(n.Link[i], depth+1))
+			} else if len(n.Link) > 0 {
+				sb.WriteString(" -")
+			}
+			if i < len(n.Key) {
+				sb.WriteString(" " + svFrom(n.Key[i]).Canon())
+			}
+		}
+		sb.WriteString(" }")
+		return sb.String()
+	}
+	return rec(*r.Link, 0)
+}
